@@ -39,7 +39,7 @@ ASSUMPTIONS = [
 BUDGET = {"quick": (32, 8), "thorough": (None, 40)}
 EARLY = 6  # additional strata from 2005-2014 in the quick tier (all of them in the thorough tier)
 GEN = dict(mode="branch", max_households=3)
-KINDS = ["scale_group", "one_leaf", "copy_all", "copy_group", "clone_rule", "plus_one", "rounding_base", "rounding_offset"]
+KINDS = ["scale_group", "one_leaf", "copy_all", "copy_group", "clone_rule", "source_copy", "plus_one", "rounding_base", "rounding_offset"]
 
 
 def numeric_paths(obj, path=()):
@@ -112,6 +112,25 @@ def clone(f):
     return g
 
 
+def source_copy(f, postponed=False):
+    """The rule as a user would copy it into an own script: same source text (decorators included), same
+    globals, but defined in another module - with or without `from __future__ import annotations`."""
+    import __future__
+
+    import inspect
+    import linecache
+    import textwrap
+
+    src = textwrap.dedent(inspect.getsource(f))
+    ns = dict(f.__globals__)
+    ns["__name__"] = "vf_user_script"
+    filename = f"<vf-user-copy-{f.__name__}>"
+    flags = __future__.annotations.compiler_flag if postponed else 0
+    exec(compile(src, filename, "exec", flags=flags, dont_inherit=True), ns)  # noqa: S102
+    linecache.cache[filename] = (len(src), None, src.splitlines(True), filename)
+    return ns[f.__name__]
+
+
 def plus_one(f):
     """User function = internal rule + 1024 (an amount no statutory rounding grid can swallow:
     with `+ 1` a rule rounded down to multiples of 2 or 10 may show no change at all)."""
@@ -146,6 +165,9 @@ def strategy(date, ctx):
             r["eps"] = draw(st.sampled_from([0.01, -0.05, 0.5]))
         elif kind == "clone_rule":
             r["rule"] = draw(st.sampled_from(rules))
+        elif kind == "source_copy":
+            r["rule"] = draw(st.sampled_from(float_rules))
+            r["postponed"] = draw(st.booleans())
         elif kind == "plus_one":
             r["rule"] = draw(st.sampled_from(float_rules))
         elif kind in ("rounding_base", "rounding_offset"):
@@ -187,6 +209,10 @@ def apply_reform(date, r):
     if kind == "clone_rule":
         f2 = dict(functions)
         f2[r["rule"]] = clone(functions[r["rule"]])
+        return params, f2, set()
+    if kind == "source_copy":
+        f2 = dict(functions)
+        f2[r["rule"]] = source_copy(functions[r["rule"]], bool(r.get("postponed")))
         return params, f2, set()
     if kind == "plus_one":
         user = {r["rule"]: plus_one(functions[r["rule"]])}
@@ -274,7 +300,7 @@ def check(df, date, r, stats=None):
     try:
         res = env.simulate(df, env=(params, functions), targets=nodes)
     except Exception as e:  # noqa: BLE001
-        if r["kind"] in ("copy_all", "copy_group", "clone_rule"):
+        if r["kind"] in ("copy_all", "copy_group", "clone_rule", "source_copy"):
             return [core.Failure(f"raises:{r['kind']}", f"{date}: simulation with {r} raises {type(e).__name__}: {e!s:.120}")]
         if stats is not None:
             stats["skipped"] = True
@@ -387,7 +413,7 @@ def oracle(case, date, sh, ctx):
     if stats.get("inplace"):
         sh.classes[f"inplace-edit-history:{stats['inplace']}" + (":both-runs-raise" if stats.get("inplace_raises") else "")] += 1
     nontriv = False
-    if r["kind"] in ("copy_all", "copy_group", "clone_rule"):
+    if r["kind"] in ("copy_all", "copy_group", "clone_rule", "source_copy"):
         nontriv = len(pop.df) >= 2
     elif stats.get("n_D") and stats["n_D"] < stats["n_nodes"] and stats.get("changed"):
         nontriv = True
